@@ -142,6 +142,10 @@ class Triangle(Domain):
             # if the number of points is specified we have to be sure to sample
             # the right amount
             bary_coords = self._grid_has_n_points(n, bary_coords, device)
+        else:
+            # the closed half of the grid for 2n points can hold some points more
+            # than the density asks for (the diagonal), cut them like for a given n
+            bary_coords = bary_coords[:n]
         points_in_dir_1 = bary_coords[:, :1] * dir_1
         points_in_dir_2 = -bary_coords[:, 1:] * dir_3
         points = points_in_dir_1 + points_in_dir_2
@@ -212,6 +216,10 @@ class TriangleBoundary(BoundaryDomain):
         sum_close_to_1 = torch.isclose(
             bary_x + bary_y, torch.tensor(1.0), atol=BARY_ATOL
         )
+        # the third edge ends at corner_1 and corner_2: exclude the rest of the
+        # line through these corners
+        between_corners = torch.logical_and(bary_x >= -BARY_ATOL, bary_y >= -BARY_ATOL)
+        sum_close_to_1 = torch.logical_and(sum_close_to_1, between_corners)
         close_to_0 = torch.logical_or(x_close_to_0, y_close_to_0)
         return torch.logical_or(close_to_0, sum_close_to_1).reshape(-1, 1)
 
